@@ -216,16 +216,16 @@ def validate_groups(module, groups, tag, rep, par=6, shard_bytes=8_000_000, env=
             if len(obs) < 20:
                 obs.append(text[:400])
             core.log("note (outside the listed properties): " + text[:300])
-        for (ln, text) in r["mismatches"]:
+        # (a change that makes EVERY event wrong yields tens of thousands of mismatches: the definition of each line is looked up in
+        # one pass, and the first 400 mismatches of a shard are enough to report)
+        for (ln, text) in r["mismatches"][:400]:
             if lines is None:
                 lines = open(p).read().splitlines()
+                def_at, cur = [], None
+                for l in lines:
+                    if l.startswith('{"op":"def"'):
+                        cur = json.loads(l)["d"]
+                    def_at.append(cur)
             ev = json.loads(lines[ln - 1])
-            # find the definition the event belongs to
-            d = None
-            for k in range(ln - 1, -1, -1):
-                e2 = json.loads(lines[k])
-                if e2.get("op") == "def":
-                    d = e2["d"]
-                    break
-            out.append((ev, d, text))
+            out.append((ev, def_at[ln - 1], text))
     return out
